@@ -17,6 +17,7 @@ func TestMiddleware(t *testing.T) {
 	component(t, func(h *H) {
 		mwAdmission(t, h)
 		mwEvents(t, h)
+		nspDuringMiddleware(t, h, "C12") // while the chain runs: not listed, not reached by broadcasts
 	})
 }
 
